@@ -272,6 +272,19 @@ impl DcpsDomainParticipant {
             return Err(DdsError::NotEnabled);
         }
 
+        // Instance operations are not defined for keyless topics
+        let topic = self
+            .domain_participant
+            .locally_created_topic_list
+            .iter()
+            .find(|x| x.topic_name == data_writer.topic_name)
+            .expect("Writer topic must exist");
+        if crate::transport::types::TopicKind::from(&topic.type_support)
+            == crate::transport::types::TopicKind::NoKey
+        {
+            return Err(DdsError::IllegalOperation);
+        }
+
         let mut member_list = Vec::new();
         let key_holder_data = match KeyHolderData::from_dynamic_data(dynamic_data, &mut member_list)
         {
